@@ -7,11 +7,20 @@ from the distribution's public methods (`log_prob`, `sample`, `sample_and_log_pr
 indices the real `_get_contrastive_idxs` produced (re-derived by the model from a permutation that
 starts with them, so an invalid row is rejected by the model).
 
-The clause "with stick-the-landing the gradient omits the score-function term" has no Lean
-theorem (it is about `stop_gradient` under JAX autodiff): `stl_gradient_check` compares
-`eqx.filter_grad` of the real loss, for q = Normal(mu, sigma) and a quadratic target, with the
-closed-form path-derivative estimator computed in NumPy from the same base samples, and checks that
-the plain ELBO gradient differs from it by exactly the score term.
+The clause "with stick-the-landing the gradient omits the score-function term" is a theorem about
+the reverse-mode model `Model/Ad.lean` (+ `Expr.stopGrad`) / `Model/ElboAd.lean`
+(`C17.elbo_stl_gradient_is_path_derivative`, `C17.elbo_plain_gradient_decomposition`).  That model
+is tied to the real code here (`stl_real` / `stl_model_compare`, driver op `stlgrad`, Float): value and the adjoint
+of EVERY trainable leaf of the real `ElboLoss(target, n, stick_the_landing=True/False)` under
+`eqx.filter_value_and_grad`, for real `Normal`, `Transformed(Normal, Exp/Tanh/SoftPlus)` and
+`Transformed(StandardNormal, Chain([Affine, …]))` in 1–3 dimensions with the SAME base noise
+(recomputed from the key through the public `sample` of the innermost base distribution), against
+the model's reverse pass; the model's path-derivative and score-term adjoints (as DEFINED in the
+theorems) against the real STL gradient and against `grad_φ mean log q_φ(x)` at the fixed real
+samples; and the decomposition plain = STL + score on the real code alone.
+`stl_gradient_check` (kept) compares `eqx.filter_grad` of the real loss, for q = Normal(mu, sigma)
+and a quadratic target, with the closed-form path-derivative estimator computed in NumPy from the
+same base samples, and checks that the plain ELBO gradient differs from it by exactly the score term.
 """
 from __future__ import annotations
 
@@ -34,23 +43,38 @@ import vlib
 from vlib import f2b, fs2b, b2f, ints
 
 ID = "C17"
-GEN = []
+GEN = ["LeavesAst"]   # the expression trees of the reverse-mode ELBO model are assembled from these generated kernels
+GEN_TARGETS = {"Affine.transform.ast", "Affine.inverse.ast", "Affine.transform_and_log_det.ast", "Affine.inverse_and_log_det.ast",
+               "Exp.transform_and_log_det.ast", "Exp.inverse_and_log_det.ast", "SoftPlus.transform.ast", "SoftPlus.inverse.ast",
+               "SoftPlus.transform_and_log_det.ast", "SoftPlus.inverse_and_log_det.ast", "tanhLogGrad.ast",
+               "Tanh.transform_and_log_det.ast", "Tanh.inverse_and_log_det.ast"}
 RULE = ("real MaximumLikelihoodLoss / ElboLoss (both stick_the_landing settings) / ContrastiveLoss on Normal (scalar and vector), "
         "Transformed with NonTrainable + BijectionReparam nodes, coupling_flow and masked_autoregressive_flow (conditional and "
         "unconditional, parameters perturbed away from initialisation), batch sizes 0..8, num_samples 1..6, n_contrastive 0..batch-1 "
         "plus the guard at batch <= n and mismatched condition batch; model fed with public log_prob / sample / sample_and_log_prob "
-        "values and the actual _get_contrastive_idxs rows; STL gradient vs closed-form path-derivative estimator. non-trivial = "
+        "values and the actual _get_contrastive_idxs rows; STL gradient vs closed-form path-derivative estimator; reverse-mode model "
+        "(driver op stlgrad) vs eqx.filter_value_and_grad of the real ElboLoss with and without stick_the_landing on Normal, "
+        "Transformed(Normal, Exp/Tanh/SoftPlus) and Affine/Tanh/Exp/SoftPlus chains in 1-3 dims (every trainable leaf, same noise, rtol 1e-8), "
+        "model path/score adjoints vs real STL gradient / real grad of log q at fixed samples, plain = STL + score on the real code. non-trivial = "
         "non-default parameters and batch/num_samples >= 2; distinct = distinct (loss, distribution, seed, sizes, setting)")
 TRUSTED = [
     "Lean 4.33 kernel; Mathlib v4.33; axioms propext, Classical.choice, Quot.sound",
     "Model/Losses.lean (hand model of train/losses.py; validated by this correspondence on every run)",
+    "Model/Ad.lean reverse-mode rules incl. Expr.stopGrad (symbolic-zero cotangent, as jax.lax.stop_gradient) and Model/ElboAd.lean "
+    "(hand wiring of Transformed._sample/_log_prob/_sample_and_log_prob, Chain, BijectionReparam(scale, SoftPlus), norm.logpdf, .mean() around the "
+    "GENERATED kernels of Gen/LeavesAst.lean): validated against jax.grad of the real ElboLoss by this correspondence on every run",
     "Proofs/DistTheory.lean Distn.Consistent (C03) as the hypothesis of elbo_stl_same_value",
     "jr.choice(replace=False) modelled as the first n entries of SOME permutation of the candidates (validated: the real rows are re-derived by the model)",
     "theorems are over ℝ: IEEE rounding is measured (rtol 1e-9) not proved; logsumexp's max-shift is modelled and proved equal to log-sum-exp",
 ]
 ASSUMPTIONS = [
-    "the clause 'the STL gradient omits the score-function term' is NOT a Lean theorem (stop_gradient has no value-level meaning); it is "
-    "checked on the real code against the closed-form path-derivative gradient for location-scale Normal q and quadratic targets",
+    "the STL-gradient theorems are about the reverse-mode calculus Ad.Expr (scalar straight-line expressions with let, select, max/min, "
+    "vector-parameter lookup, stop_gradient), for EVERY expression-level sample x(θ,ε), log-density and parameter-free target; that JAX's "
+    "autodiff implements these cotangent rules is trusted and measured (value and every adjoint, rtol 1e-8) on elementwise flows; network "
+    "conditioners (coupling / MAF) are outside the expression language — for them only the value clauses are theorems",
+    "the plain (non-STL) branch is modelled as log q_θ(x(θ,ε)) through log_prob; the real code evaluates it by sample_and_log_prob "
+    "(forward log-dets). The two gradients agree on the real code and in the model (both forms are run and compared, rtol 1e-8) but their "
+    "equality is not a theorem of the AD calculus",
     "distributions enter the theorems as abstract records of their three unbatched methods; the per-sample keys of sample / "
     "sample_and_log_prob are an abstract list (both public methods split the key identically — checked by the STL/non-STL value equality)",
     "empty batch: the real losses return NaN (0/0), as does the Float model; over ℝ the formulas read 0/0 = 0",
@@ -94,6 +118,11 @@ def build(name, seed):
         return Normal(_vec(r, d, -2, 2), _vec(r, d, -1, 1, math.exp)), None
     if name == "normal_scalar":
         return Normal(r.uniform(-2, 2), math.exp(r.uniform(-1, 1))), None
+    if name == "lognormal":
+        # support (0, inf): batches drawn from N(0, 1.2) mix in-support rows with rows whose raw log-density is NaN (public: -inf)
+        from flowjax.distributions import LogNormal
+        d = r.choice([1, 2])
+        return LogNormal(_vec(r, d, -1, 1), _vec(r, d, -0.5, 0.5, math.exp)), None
     if name == "wrapped":
         # NonTrainable leaves in the base, BijectionReparam (Affine.scale) + NonTrainable in the chain
         base = non_trainable(Normal(_vec(r, 2, -1, 1), _vec(r, 2, -0.5, 0.5, math.exp)))
@@ -270,6 +299,130 @@ def stl_gradient_check(seed, d, n):
     return bad, nontrivial
 
 
+# ------------------------------------------------------------------ reverse-mode model of ElboLoss vs jax.grad of the real loss
+STL_KINDS = ["normal", "normal+E", "normal+T", "normal+S", "AS", "ATA", "AEA", "AA"]
+_EL = {"E": lambda d: B.Exp((d,)), "T": lambda d: B.Tanh((d,)), "S": lambda d: B.SoftPlus((d,))}
+
+
+def stl_build(kind, d, seed):
+    """(real distribution, layer string of the model, innermost base distribution) — deterministic in (kind, d, seed);
+    parameters away from the default initialisation, locations of both signs"""
+    r = random.Random(seed * 131 + 7 * d + len(kind))
+    vec = lambda lo, hi, f=(lambda v: v): jnp.asarray([f(r.uniform(lo, hi)) for _ in range(d)])
+    if kind == "normal":
+        dist = Normal(vec(-0.7, 0.7), vec(-0.6, 0.2, math.exp))
+        return dist, "A", dist.base_dist
+    if kind.startswith("normal+"):
+        inner = Normal(vec(-0.7, 0.7), vec(-0.6, 0.2, math.exp))
+        return Transformed(inner, _EL[kind[-1]](d)), "A" + kind[-1], inner.base_dist
+    bs = [B.Affine(vec(-0.7, 0.7), vec(-0.6, 0.2, math.exp)) if ch == "A" else _EL[ch](d) for ch in kind]
+    dist = Transformed(StandardNormal((d,)), B.Chain(bs))
+    return dist, kind, dist.base_dist
+
+
+def stl_affines(tree):
+    """the Affine nodes of the distribution (or of a gradient / params tree of the same structure), in chain order"""
+    if isinstance(tree.bijection, B.Chain):
+        return [b for b in tree.bijection.bijections if isinstance(b, B.Affine)]
+    if isinstance(tree.bijection, B.Affine):
+        return [tree.bijection]
+    return [tree.base_dist.bijection]
+
+
+def stl_leaves(tree):
+    """trainable leaves in the model's order: per affine layer loc[0..d) then the raw (pre-softplus) scale[0..d)"""
+    out = []
+    for a in stl_affines(tree):
+        out += list(np.asarray(a.loc).reshape(-1)) + list(np.asarray(a.scale.arr).reshape(-1))
+    return out
+
+
+def stl_target(d, seed):
+    r = random.Random(seed * 17 + 3 + d)
+    a = np.asarray([math.exp(r.uniform(-1, 1)) for _ in range(d)])
+    m = np.asarray([r.uniform(-1, 1) for _ in range(d)])
+    kappa = r.uniform(-0.5, 0.5)
+    aj, mj = jnp.asarray(a), jnp.asarray(m)
+    return (lambda x: -0.5 * jnp.sum(aj * (x - mj) ** 2) + kappa * jnp.sum(x[:-1] * x[1:])), a, m, kappa
+
+
+def stl_real(kind, d, n, seed):
+    """everything the real code says about one (flow, target, key): values, gradients of both settings w.r.t. every trainable
+    leaf, the score term grad_φ mean log q_φ(x) at the fixed real samples, the path derivative with φ a closed-over constant"""
+    dist, layers, base = stl_build(kind, d, seed)
+    target, a, m, kappa = stl_target(d, seed)
+    params, static = partition(dist)
+    key = jr.PRNGKey(seed * 31 + 5 * d + n)
+    eps = np.asarray(base.sample(key, (n,))).reshape(n, d)          # the base noise of dist.sample(key, (n,))
+    v_stl, g_stl = eqx.filter_value_and_grad(lambda p: ElboLoss(target, n, stick_the_landing=True)(p, static, key))(params)
+    v_pln, g_pln = eqx.filter_value_and_grad(lambda p: ElboLoss(target, n, stick_the_landing=False)(p, static, key))(params)
+    x = dist.sample(key, (n,))
+    g_score = eqx.filter_grad(lambda p: eqx.combine(p, static).log_prob(x).mean())(params)
+
+    def path_loss(p):
+        xs = eqx.combine(p, static).sample(key, (n,))
+        return (dist.log_prob(xs) - jax.vmap(target)(xs)).mean()      # φ = the closed-over constant `dist`
+    g_path = eqx.filter_grad(path_loss)(params)
+    return dict(layers=layers, theta=stl_leaves(params), eps=eps, a=a, m=m, kappa=kappa, v_stl=fl(v_stl), v_pln=fl(v_pln),
+                g_stl=np.asarray(stl_leaves(g_stl)), g_pln=np.asarray(stl_leaves(g_pln)), g_score=np.asarray(stl_leaves(g_score)),
+                g_path=np.asarray(stl_leaves(g_path)))
+
+
+def _gclose(u, v, rtol=1e-8):
+    u, v = np.asarray(u, dtype=float), np.asarray(v, dtype=float)
+    if u.shape != v.shape:
+        return False
+    scale = max(1.0, float(np.max(np.abs(u))) if u.size else 1.0, float(np.max(np.abs(v))) if v.size else 1.0)
+    return vlib.allclose(u.tolist(), v.tolist(), rtol=rtol, atol=1e-10 * scale)
+
+
+def stl_real_laws(r):
+    """the gradient clause on the real code alone; list of (law, got, want)"""
+    bad = []
+    if not vlib.close(r["v_stl"], r["v_pln"], rtol=1e-8, atol=1e-10):
+        bad.append(("same value with or without stick_the_landing", r["v_stl"], r["v_pln"]))
+    if not _gclose(r["g_stl"], r["g_path"]):
+        bad.append(("STL gradient = path derivative (log q's parameters a closed-over constant)", r["g_stl"].tolist(), r["g_path"].tolist()))
+    if not _gclose(r["g_pln"] - r["g_stl"], r["g_score"]):
+        bad.append(("plain gradient - STL gradient = score term grad_phi mean log q_phi(x) at fixed samples",
+                    (r["g_pln"] - r["g_stl"]).tolist(), r["g_score"].tolist()))
+    return bad
+
+
+def stl_model_line(r, d, n):
+    return (f"stlgrad {r['layers']} {d} {n} {fs2b(r['theta'])} {fs2b(r['eps'].reshape(-1))} {fs2b(r['a'])} {fs2b(r['m'])} "
+            f"{f2b(r['kappa'])}")
+
+
+def stl_model_compare(c, got, r, info):
+    """model (Float) vs real: values, every adjoint of the three forms, the defined path / score adjoints"""
+    if got.startswith("ERR"):
+        c.mismatch("stlgrad-model-vs-impl", model=got, **info)
+        return
+    parts = [p.strip() for p in got.split("|")]
+    vals = [b2f(t) for t in parts[0].split(" ")]
+    gP, gS, gF, gPath, gScore = [np.asarray(vlib.b2fs(p)) for p in parts[1:]]
+    checks = [
+        ("value plain (log_prob of the sample)", vals[0], r["v_pln"]), ("value STL", vals[1], r["v_stl"]),
+        ("value plain (sample_and_log_prob form)", vals[2], r["v_pln"]),
+    ]
+    for what, g, w in checks:
+        if not vlib.close(g, w, rtol=1e-9, atol=1e-11):
+            c.mismatch("stlgrad-model-vs-impl", what=what, model=g, impl=w, **info)
+    gchecks = [
+        ("grad plain: model log_prob form vs jax.grad of real non-STL loss", gP, r["g_pln"]),
+        ("grad plain: model sample_and_log_prob form vs jax.grad of real non-STL loss", gF, r["g_pln"]),
+        ("grad STL: model vs jax.grad of real STL loss", gS, r["g_stl"]),
+        ("model path derivative (Elbo.pathGrad) vs jax.grad of real STL loss", gPath, r["g_stl"]),
+        ("model score term (Elbo.scoreGrad) vs real grad_phi mean log q_phi(x)", gScore, r["g_score"]),
+        ("model: STL adjoint = path derivative (theorem (b) at Float)", gS, gPath),
+        ("model: plain adjoint = STL adjoint + score (theorem (c) at Float)", gP, gS + gScore),
+    ]
+    for what, g, w in gchecks:
+        if not _gclose(g, w):
+            c.mismatch("stlgrad-model-vs-impl", what=what, model=np.asarray(g).tolist(), impl=np.asarray(w).tolist(), **info)
+
+
 # ------------------------------------------------------------------ correspondence
 def corr(c, tier, rng):
     quick = tier == "quick"
@@ -391,6 +544,33 @@ def corr(c, tier, rng):
                 c.mismatch("stl-gradient", what=what, got=g, want=w, seed=seed, dim=d, num_samples=n)
             c.case(("stl-grad", seed, d, n), nontrivial)
             c.count("stl-gradient")
+    # ---- 5. the reverse-mode model of ElboLoss (theorems (a)-(c)) vs jax.grad of the real loss, both settings
+    clear()
+    stl_lines, stl_reals = [], []
+    for kind in STL_KINDS:
+        for d in (1, 2, 3):
+            ns = [rng.choice([1, 2]), rng.choice([3, 4, 5])] if quick else [1, 2, 3, 5, 8]
+            for n in (ns[:1] if quick and d == 3 else ns):
+                seed = rng.randrange(1, 10 ** 6)
+                info = dict(flow=kind, dim=d, num_samples=n, seed=seed)
+                try:
+                    r = stl_real(kind, d, n, seed)
+                except Exception as ex:  # noqa: BLE001
+                    c.mismatch("stlgrad-real-raises", exc=type(ex).__name__, **info)
+                    continue
+                for law, g, w in stl_real_laws(r):
+                    c.mismatch("stl-gradient-real-laws", law=law, got=g, want=w, **info)
+                stl_lines.append(stl_model_line(r, d, n)); stl_reals.append((r, info))
+                nontriv = bool(np.max(np.abs(r["g_score"])) > 1e-6)     # the score term is really there
+                c.case(("stlgrad-model", kind, d, n, seed), nontriv,
+                       sample={"op": f"stlgrad {r['layers']} d={d} n={n} ({kind})", "impl_grad_stl": r["g_stl"].tolist(),
+                               "impl_grad_plain": r["g_pln"].tolist()} if (kind, d) == ("normal+T", 2) else None)
+                c.count("stlgrad:" + kind)
+        clear()
+    for got, (r, info) in zip(vlib.run_model(stl_lines), stl_reals):
+        stl_model_compare(c, got, r, info)
+    # the model must reject an ill-formed op (the tie is not vacuous)
+    add("stlgrad AX 1 1 - - - - 0", "stlgrad-rejects-bad-layer", "ERR", {})
 
     outs = vlib.run_model(lines)
     for line, got, (name, want, info) in zip(lines, outs, checks):
@@ -469,6 +649,17 @@ def oracle_stl(seed, d, n):
     return None
 
 
+def oracle_stl_decomp(kind, d, n, seed):
+    try:
+        bad = stl_real_laws(stl_real(kind, d, n, seed))
+    except Exception as ex:  # noqa: BLE001
+        bad = [("loss / gradient raises", type(ex).__name__, None)]
+    if bad:
+        law, g, w = bad[0]
+        return dict(key=f"stldecomp|{kind}|{d}|{n}|{seed}", kind="stldecomp", flow=kind, d=d, n=n, seed=seed, law=law, got=g, want=w)
+    return None
+
+
 def search(hints, tier, rng):
     quick = tier == "quick"
     clear = (lambda: None) if quick else jax.clear_caches
@@ -483,10 +674,15 @@ def search(hints, tier, rng):
         for n in (1, 5):
             if push(oracle_stl(rng.randrange(1, 10 ** 6), d, n)):
                 return wit
-    for name in (["normal", "wrapped", "maf", "coupling_c", "wrapped_c"] if quick else UNCOND + COND):
+    for kind in (["normal+T", "ATA"] if quick else STL_KINDS):
+        clear()
+        for d, n in ([(1, 1), (2, 3)] if quick else [(1, 1), (2, 3), (3, 5)]):
+            if push(oracle_stl_decomp(kind, d, n, rng.randrange(1, 10 ** 6))):
+                return wit
+    for name in (["lognormal", "normal", "wrapped", "maf", "coupling_c", "wrapped_c"] if quick else ["lognormal"] + UNCOND + COND):
         clear()
         seed = rng.randrange(1, 10 ** 6)
-        for b in ([1, 3] if quick else [1, 2, 3, 5, 8]):
+        for b in ([1, 3, 8] if quick else [1, 2, 3, 5, 8]):
             if push(oracle_mle(name, seed, b)):
                 return wit
     for name in (["normal", "wrapped", "coupling"] if quick else UNCOND):
@@ -515,4 +711,6 @@ def replay(w):
         return oracle_contrastive(w["name"], w["seed"], w["b"], w["n"]) is not None
     if k == "stlgrad":
         return oracle_stl(w["seed"], w["d"], w["n"]) is not None
+    if k == "stldecomp":
+        return oracle_stl_decomp(w["flow"], w["d"], w["n"], w["seed"]) is not None
     return bool(search({}, "quick", random.Random(0)))
